@@ -87,7 +87,7 @@ def main(tier, seed, replay=None):
         rep.write_evidence = False
         import json
         c = json.load(open(replay))['case']
-        jobs = [(c['sym'], c['seed'], 6 if tier == 'quick' else 8)]
+        jobs = [(c['sym'], c['seed'], 6 if tier == 'quick' else 8)] if c.get('op') != 'network' else []
     else:
         n = 140 if tier == 'quick' else 2100
         jobs = [(SYMLIST[i % 7], seed * 1000211 + i, 7 if tier == 'quick' else 9) for i in range(n)]
@@ -97,7 +97,25 @@ def main(tier, seed, replay=None):
     hypers = [h for _, h in out]
     if not replay:
         hypers.append(canonical_zero_sector())
+    # contract_with_unroll: the same network through every contraction path (optimizers), unrolled by charge sector, sliced uniformly, one or two labels at once:
+    # every result must be the single order-free value of TensorOps!Ncon (the ncon event of TraceTensor holds all of them)
+    if not replay or c.get('op') == 'network':
+        import c05
+        usyms = [x for x in SYMLIST if x != 'dense']
+        njobs = [(usyms[i % len(usyms)], False, seed * 1000403 + 700000 + i, 4, True) for i in range(84 if tier == 'quick' else 1200)] if not replay else [(c['sym'], False, c['seed'], 4, True)]
+        with ProcessPoolExecutor(max_workers=14) as ex:
+            nets = list(ex.map(c05.network, njobs, chunksize=2))
+        for t in nets:
+            t['kind'] = 'network'
+        traces += nets
+        unroll_results = [r for t in nets for e in t['ev'] if e['op'] == 'ncon' for r in e['results'] if str(r['order']).startswith('contract_with_unroll')]
+    else:
+        unroll_results = []
     nev, kinds, rej = report_traces(rep, traces)
+    netseeds = {t['seed'] for t in traces if t.get('kind') == 'network'}
+    for v in rep.violations:
+        if v[2].get('seed') in netseeds:
+            v[2]['op'] = 'network'
     acc, diag, res = validate_traces('TraceHyper', 'TraceHyper.cfg', hypers, shards=16, timeout=3000)
     for h, rj in zip(hypers, validate_traces.last_rejects):
         for l, why in rj:
@@ -123,7 +141,8 @@ def main(tier, seed, replay=None):
     rep.cov['traces_validated_against_impl'] = len(traces)
     rep.cov['evaluations'] = nev
     rep.cov['distinct_nontrivial'] = sum(1 for h in hypers for e in h['ev'] if any(x.get('sup') and any(x['sup']) for x in e['x']))
-    rep.cov['parts'].update({'programs': len(hypers), 'executions_per_program': len(KNOBS) + 3, 'programs_mixing_explicit_and_default_fusion_mode (compared within one default mode only)': sum(1 for h in hypers if h.get('mixed_modes')), 'events_by_op': kinds, 'hyper_events_compared': sum(len(h['ev']) for h in hypers)})
+    rep.cov['parts'].update({'contract_with_unroll_results': len(unroll_results), 'contract_with_unroll_by_kind': {k: sum(1 for r in unroll_results if k in r['order']) for k in ('no unroll', 'by sector', 'slices of 1', 'slices of 2', ' and ', 'greedy')},
+                             'programs': len(hypers), 'executions_per_program': len(KNOBS) + 3, 'programs_mixing_explicit_and_default_fusion_mode (compared within one default mode only)': sum(1 for h in hypers if h.get('mixed_modes')), 'events_by_op': kinds, 'hyper_events_compared': sum(len(h['ev']) for h in hypers)})
     rep.cov['states'] += sum(r.distinct for r in res)
     rep.cov['transitions'] += sum(r.generated for r in res)
     rep.sample({'sym': hypers[0]['sym'], 'seed': hypers[0]['seed'], 'configurations': KNOBS, 'hyper_event': hypers[0]['ev'][-1]})
